@@ -347,8 +347,8 @@ PROPS = {
                     "explainable by the sequential meaning of the API), must not panic or deadlock, and must leave nothing behind; data races without observable effect are "
                     "outside what a TLA+ specification can express and are reported by the Go race detector attached to the same runs"},
     "C17": {"level": "model_checking", "runner": run_c17, "also": ["C02_RequestMD"],
-            "quick": lambda s: gen.fam_meta(s, 96, gated=False) + gen.fam_data(s, 32) + gen.fam_ids(s, 16),
-            "thorough": lambda s: gen.fam_meta(s, 600, gated=False) + gen.fam_data(s, 200) + gen.fam_ids(s, 100)},
+            "quick": lambda s: gen.fam_meta(s, 96, gated=False) + gen.fam_nested(s) + gen.fam_data(s, 32) + gen.fam_ids(s, 16),
+            "thorough": lambda s: gen.fam_meta(s, 600, gated=False) + sum((gen.fam_nested(s + i) for i in range(6)), []) + gen.fam_data(s, 200) + gen.fam_ids(s, 100)},
     "C18": {"level": "model_checking", "runner": run_c18, "engine": "tlc-grpc-timeout",
             "technique": "TLA+ reference function (GrpcTimeout.tla); TLC enumerates the input domain and validates every observed handler deadline",
             "text": "the gRPC wire rule for grpc-timeout is a total TLA+ function; TLC enumerates the structured input domain completely, each input is executed "
